@@ -296,8 +296,10 @@ static void mon_final(int info) {
 }
 
 /* ------------------------------------------------------------------ interception */
+static int bypass;     /* refactor jobs: the FIRST factorization (one worker) runs inline, outside the explored schedule */
 int vf_thread_create(pthread_t *t, const pthread_attr_t *a, void *(*fn)(void *), void *arg) {
     (void)a;
+    if (bypass) { fn(arg); *t = (pthread_t)0; return 0; }
     pthread_mutex_lock(&big);
     if (nth >= MAXT) { fprintf(stderr, "too many threads\n"); _exit(96); }
     int id = nth++; th[id].used = 1; th[id].finished = 0; th[id].op = OP_NONE; th[id].fn = fn; th[id].arg = arg; pthread_cond_init(&th[id].cv, NULL);
@@ -310,6 +312,7 @@ int vf_thread_create(pthread_t *t, const pthread_attr_t *a, void *(*fn)(void *),
     return 0;     /* not a scheduling point: creation commutes with everything a worker does */
 }
 int vf_thread_join(pthread_t t, void **st) {
+    if (bypass) { if (st) *st = NULL; return 0; }
     int id = (int)(long)t;
     pthread_mutex_lock(&big); th[me].op = OP_JOIN; th[me].jtarget = id; point(); th[me].op = OP_NONE; threads_joined++; pthread_mutex_unlock(&big);
     pthread_join(th[id].th, NULL); if (st) *st = NULL; return 0;
@@ -389,9 +392,70 @@ static int prop_wants(const char *sig) {
     if (!strcmp(PROP, "C03") && (!strncmp(sig, "C02:residual", 12))) return 1;     /* "coincide with sequential elimination" */
     return 0;
 }
-static fres_t RES;
+static fres_t RES; static char SHAPE_NAME[64];
+/* K16: a first factorization (values vk, one worker, inline) followed by a RE-factorization (refact = YES, usepr = YES or NO, values VK2, P workers)
+   whose every interleaving is explored; oracles for the values current at the second call (C08) */
+static int REFACT, VK2, USEPR;
+static void run_refactor_once(void) {
+    static tmat_t T2; int n = TM.n; char msg[400];
+    if (!shape_build(SHAPE_NAME, VK2, &T2) || T2.nnz != TM.nnz) die_with(3, "refactor job: second value set has another pattern");
+    vf_ienv[1] = CFG.w; vf_ienv[2] = CFG.relax; vf_ienv[3] = CFG.maxsuper; vf_ienv[4] = CFG.rowblk; vf_ienv[5] = CFG.colblk; vf_ienv[6] = -50; vf_ienv[7] = CFG.fill7; vf_ienv[8] = CFG.fill8;
+    unsetenv("SuperLU_DYNAMIC_SNODE_STORE");
+    amat_t am; am_build(&am, &TM, 0);
+    int_t *perm_r = malloc(sizeof(int_t) * (n + 1)), *perm_c = malloc(sizeof(int_t) * (n + 1)), old_pr[NMAX]; int_t info = -999;
+    for (int i = 0; i < n; i++) { perm_r[i] = -7; perm_c[i] = i; }
+    superlumt_options_t opt; memset(&opt, 0, sizeof opt); Gstat_t Gstat; SuperMatrix AC, L, U; memset(&L, 0, sizeof L); memset(&U, 0, sizeof U);
+    get_perm_c(CFG.ordering, &am.A, perm_c);
+    bypass = 1;
+    StatAlloc(n, 1, CFG.w, CFG.relax, &Gstat); StatInit(n, 1, &Gstat);
+    FN(p,gstrf_init)(1, DOFACT, NOTRANS, NO, CFG.w, CFG.relax, CFG.u, NO, 0.0, perm_c, perm_r, NULL, 0, &am.A, &AC, &opt, &Gstat);
+    pXgstrf(&opt, &AC, perm_r, &L, &U, &Gstat, &info);
+    Destroy_CompCol_Permuted(&AC); StatFree(&Gstat);
+    bypass = 0;
+    RES.info = (int)info; RES.n = n;
+    if (info == 0) {
+        for (int k = 0; k < T2.nnz; k++) { am.val[k] = L2S(T2.val[k]); am.val0[k] = am.val[k]; }
+        for (int i = 0; i < n; i++) old_pr[i] = perm_r[i];
+        StatAlloc(n, CFG.nprocs, CFG.w, CFG.relax, &Gstat); StatInit(n, CFG.nprocs, &Gstat);
+        FN(p,gstrf_init)(CFG.nprocs, DOFACT, NOTRANS, YES, CFG.w, CFG.relax, CFG.u, USEPR ? YES : NO, 0.0, perm_c, perm_r, NULL, 0, &am.A, &AC, &opt, &Gstat);
+        pXgstrf(&opt, &AC, perm_r, &L, &U, &Gstat, &info);
+        Destroy_CompCol_Permuted(&AC); StatFree(&Gstat);
+        RES.info = (int)info;
+        static mref_t m2; static int m2_ok; if (!m2_ok) { mref_compute(&T2, &m2); m2_ok = 1; }
+        if (info != 0) { if (m2.num_nonsing && m2.cond1 < 1e6L) mon_viol("C08:info:refactor", "nonsingular values but the re-factorization returned info=%d", (int)info); }
+        else {
+            tm_to_dense(&T2, RES.A); for (int i = 0; i < n; i++) for (int j = 0; j < n; j++) RES.A[i][j] = S2L(L2S(RES.A[i][j]));
+            for (int i = 0; i < n; i++) { RES.perm_r[i] = perm_r[i]; RES.perm_c[i] = perm_c[i]; }
+            RES.wf = wellformed(&L, &U, perm_r, perm_c, n, RES.Ld, RES.Ud, RES.wfmsg, sizeof RES.wfmsg);
+            if (RES.wf) { char sig[64]; snprintf(sig, sizeof sig, "C08:wellformed:code%d:refactor", RES.wf); mon_viol(sig, "%s", RES.wfmsg); snprintf(sig, sizeof sig, "C09:wellformed:code%d", RES.wf); mon_viol(sig, "%s", RES.wfmsg); }
+            else {
+                ldc M[NMAX][NMAX]; ld ratio; permuted_A(RES.A, n, perm_r, perm_c, M);
+                if (check_lu_residual(M, RES.Ld, RES.Ud, n, &ratio, msg, sizeof msg)) { mon_viol("C08:residual:refactor", "%s", msg); mon_viol("C02:residual", "%s", msg); }
+                if (check_multipliers(RES.Ld, n, CFG.u, msg, sizeof msg)) { mon_viol("C08:multiplier:refactor", "%s", msg); mon_viol("C02:multiplier", "%s", msg); }
+                const SCPformat *Ls = L.Store; const NCPformat *Us = U.Store; RES.nsuper = (int)Ls->nsuper + 1; RES.Lnnz = (int)Ls->nnz; RES.Unnz = (int)Us->nnz;
+                /* pivot reuse: when every old pivot passes the threshold for the new values the row permutation comes back unchanged */
+                if (USEPR && VK2 == 7) for (int i = 0; i < n; i++) if (perm_r[i] != old_pr[i]) { mon_viol("C08:policy:usepr", "perm_r[%d] changed from %ld to %ld although the new values are a multiple of the old ones", i, (long)old_pr[i], (long)perm_r[i]); break; }
+            }
+            if (am_unchanged(&am)) mon_viol("C08:A-modified", "the re-factorization changed the caller's A");
+        }
+    }
+    if (info >= 0 && info <= n && L.Store && U.Store) { Destroy_SuperNode_SCP(&L); Destroy_CompCol_NCP(&U); }
+    if (opt.etree) { SUPERLU_FREE(opt.etree); SUPERLU_FREE(opt.colcnt_h); SUPERLU_FREE(opt.part_super_h); }
+    am_free(&am); free(perm_r); free(perm_c);
+}
 static void run_once(void) {
     sched_reset();
+    if (REFACT) {
+        run_refactor_once(); mon_final(RES.info); model_stop();
+        X->executions++; X->choice_points += npts; if (npts > X->maxpts) X->maxpts = npts;
+        for (int i = 0; i < npend; i++) if (prop_wants(pend[i].sig)) report(pend[i].sig, pend[i].msg);
+        unsigned long long h = 1469598103934665603ULL; h = hmix_(h, RES.info); for (int i = 0; i < TM.n; i++) h = hmix_(h, RES.perm_r[i]); h = hmix_(h, RES.nsuper); h = hmix_(h, RES.Lnnz * 64 + RES.Unnz);
+        for (int i = 0; i < TM.n; i++) for (int j = 0; j < TM.n; j++) { scalar_t s = L2S(RES.Ld[i][j]); unsigned long long v = 0; memcpy(&v, &s, sizeof s < 8 ? sizeof s : 8); h = hmix_(h, v); }
+        int k; for (k = 0; k < X->noutc; k++) if (X->outcomes[k] == h) break; if (k == X->noutc && X->noutc < 256) X->outcomes[X->noutc++] = h;
+        { unsigned s = (unsigned)(trace_hash >> 24) & 0x1fffff; for (int q = 0; q < 64; q++) { unsigned z = (s + q) & 0x1fffff; if (X->traces[z] == trace_hash) break; if (!X->traces[z]) { X->traces[z] = trace_hash; X->ntraces++; break; } } }
+        if (X->samples_left > 0 && preempts > 0) { X->samples_left--; char sb[900]; int o = snprintf(sb, sizeof sb, "%s", CASE); sched_str(sb + o, sizeof sb - o, choice, npts); out_sample(PROP, "%s -> refactor info=%d points=%d preemptions=%d", sb, RES.info, npts, preempts); }
+        return;
+    }
     run_factor_case(&TM, &CFG, &RES);
     mon_final(RES.info); model_stop();
     X->executions++; X->choice_points += npts; if (npts > X->maxpts) X->maxpts = npts;
@@ -439,8 +503,10 @@ static void push_frame(int len) {
 /* the library's abort path (SUPERLU_ABORT -> exit) ends the execution: it is counted as an execution with outcome "abort", its choice
    points are pushed like those of any other execution, and the explorer process ends with code 94; the supervisor forks a new explorer
    that continues from the shared stack.  Nothing of the schedule tree is lost. */
+static int in_ref_child;
 void vf_lib_exit(int code) {
     (void)code;
+    if (in_ref_child) { fflush(NULL); _exit(95); }      /* the one-thread reference run ended in the abort path: no reference, nothing recorded */
     pthread_mutex_lock(&big);
     X->executions++; X->lib_aborts++; X->choice_points += npts; if (npts > X->maxpts) X->maxpts = npts;
     for (int i = 0; i < npend; i++) if (prop_wants(pend[i].sig)) report(pend[i].sig, pend[i].msg);
@@ -503,9 +569,12 @@ int main(int argc, char **argv) {
         if ((p = strstr(src, "lwork="))) CFG.lwork = atol(p + 6);
     }
     CFG.nprocs = NPROC;
+    REFACT = arg_int(argc, argv, "--refact", 0); VK2 = arg_int(argc, argv, "--vk2", 0); USEPR = arg_int(argc, argv, "--usepr", 1);
+    if (src) { const char *p; GETI("refact", REFACT); GETI("vk2", VK2); GETI("usepr", USEPR); }
+    snprintf(SHAPE_NAME, sizeof SHAPE_NAME, "%s", shape);
     MODEL_ENABLED = arg_int(argc, argv, "--model", (!strcmp(PROP, "C03") || !strcmp(PROP, "C04")) ? 1 : 0);
     if (!shape_build(shape, vk, &TM)) { fprintf(stderr, "unknown shape %s\n", shape); return 2; }
-    snprintf(CASE, sizeof CASE, "shape=%s vk=%d P=%d bound=%d w=%d rlx=%d ms=%d drv=%d dyn=%d rb=%d cb=%d ord=%d sym=%d u=%g lwork=%ld f7=%d f8=%d", shape, vk, NPROC, BOUND, CFG.w, CFG.relax, CFG.maxsuper, CFG.driver, CFG.dyn, CFG.rowblk, CFG.colblk, CFG.ordering, CFG.symmetric, CFG.u, CFG.lwork, CFG.fill7, CFG.fill8);
+    snprintf(CASE, sizeof CASE, "shape=%s vk=%d P=%d bound=%d w=%d rlx=%d ms=%d drv=%d dyn=%d rb=%d cb=%d ord=%d sym=%d u=%g lwork=%ld f7=%d f8=%d refact=%d vk2=%d usepr=%d", shape, vk, NPROC, BOUND, CFG.w, CFG.relax, CFG.maxsuper, CFG.driver, CFG.dyn, CFG.rowblk, CFG.colblk, CFG.ordering, CFG.symmetric, CFG.u, CFG.lwork, CFG.fill7, CFG.fill8, REFACT, VK2, USEPR);
     DEADLINE = atof(arg_str(argc, argv, "--deadline", "1e18")); T0 = now_s();
 
     if (one) {       /* replay: the recorded schedule, no exploration; run twice and compare */
@@ -525,7 +594,7 @@ int main(int argc, char **argv) {
 
     /* reference: the same call with one thread (C06: info does not depend on thread count and schedule) */
     { fflush(NULL); pid_t pid = fork();
-      if (pid == 0) { prctl(PR_SET_PDEATHSIG, SIGKILL); int P = CFG.nprocs; CFG.nprocs = 1; MODEL_ENABLED = 0; sched_reset(); run_factor_case(&TM, &CFG, &RES); CFG.nprocs = P; X->ref_info = RES.info; X->have_ref = 1; fflush(NULL); _exit(0); }
+      if (pid == 0) { prctl(PR_SET_PDEATHSIG, SIGKILL); in_ref_child = 1; int P = CFG.nprocs; CFG.nprocs = 1; MODEL_ENABLED = 0; sched_reset(); run_factor_case(&TM, &CFG, &RES); CFG.nprocs = P; X->ref_info = RES.info; X->have_ref = 1; fflush(NULL); _exit(0); }
       int st; waitpid(pid, &st, 0); }
     /* supervisor loop */
     int complete = 1;
@@ -577,6 +646,7 @@ int main(int argc, char **argv) {
         if (X->executions == 0 && X->deaths > 3) { complete = 0; break; }
         if (X->deaths > 2000) { complete = 0; break; }
     }
+    if (complete && !X->lost_subtrees && X->executions <= 1 && NPROC >= 2 && TM.n >= 2) { out_init(); fprintf(vf_out, "{\"type\":\"machinery\",\"property\":\"%s\",\"detail\":\"vacuous exploration: %ld execution(s) of %s\"}\n", PROP, X->executions, CASE); }
     if (X->conf_divergences) { out_init(); fprintf(vf_out, "{\"type\":\"machinery\",\"property\":\"%s\",\"detail\":\"model/implementation divergence in %ld executions of %s: ", PROP, X->conf_divergences, CASE); for (char *p = X->conf_msg; *p; p++) if (*p != '"' && *p != '\\') fputc(*p, vf_out); fprintf(vf_out, "\"}\n"); }
     out_stats(PROP, "\"shape\":\"%s\",\"n\":%d,\"P\":%d,\"bound\":%d,\"cfg\":\"w=%d rlx=%d ms=%d drv=%d dyn=%d vk=%d\",\"complete\":%s,\"executions\":%ld,\"states\":%ld,\"transitions\":%ld,"
               "\"choice_points\":%ld,\"max_points\":%ld,\"distinct_outcomes\":%d,\"violations\":%ld,\"deaths\":%ld,\"lib_aborts\":%ld,\"lost_subtrees\":%ld,\"traces_validated\":%ld,\"conformance_events\":%ld,\"conformance_divergences\":%ld,\"executions_without_model\":%ld,\"scheduler_decisions\":%ld,\"regular_panels\":%ld,\"pipelined_panels\":%ld,\"blocked_waits\":%ld,\"wall_s\":%.2f",
